@@ -5,6 +5,8 @@ from ..exact import fzero, finf, fninf, fnan, raw_json as J, raw_unjson as U
 
 ID = "C06"
 LEVEL = "exploration"
+CASE_TIMEOUT = 30.0          # each case is a micro/milli-second integer kernel
+HANG_IS_VIOLATION = True
 RULE = ("Cases = (function, real or complex argument from the structural generators emphasising |x|<1, exact "
         "integers/half-integers/quarter-integers with even and odd integer part, more bits than the precision, huge "
         "exponents; for %/fmod a nonzero divisor incl. powers of two, |y|>>|x| (early-return path), |y|<<|x| (zero "
